@@ -120,6 +120,17 @@ def cases(tier, rng, dist):
     # repetitions under a real generator every unit is flipped / allocated to either side at least once (except with probability
     # 2^-63 per unit).  Sizes: beyond every block size a bulk draw might use (8, 32, 64, 256 bits) and just beyond every integer
     # constant that occurs in the source of the modules (harness/sizes.py), never a multiple of it
+    # "successive repetitions are independent ... for each supported generator type": a generator instance shared by several
+    # calls -- one of which may be ABORTED inside its repetition loop by a failing statistic -- must serve every later call
+    # exactly as a generator that was simply used that far (compared with a forwarding proxy around a reference SHA256 in
+    # the same state, and with a second instance): no rewinding, no stale bit pool, no restart
+    for gen in ("sha", "rs", "sha"):
+        for steps in (["one_sample!1", "one_sample"], ["two_sample!2", "two_sample"], ["one_sample!2", "permute", "two_sample"], ["k_sample!1", "one_sample", "shift"],
+                      ["shift!1", "one_sample", "two_sample"], ["one_sample", "two_sample", "one_sample"], ["biv!2", "one_sample", "k_sample"]):
+            n = rng.randint(4, 6)
+            dist.add("design", "sequence")
+            yield {"d": "seq", "f": "seq", "steps": steps, "data": [rng.randint(-4, 4) for _ in range(2 * n)], "n": n, "reps": rng.randint(2, 3), "gen": gen,
+                   "seed": rng.randint(0, 10**6), "aseed": rng.randint(0, 10**9), "keep": rng.random() < 0.5}
     from .. import sizes
     ns = [259, 300, 515] + [v for v in sizes.beyond(["core", "utils", "ksample"], cap=6000) if v >= 40]
     for k, n in enumerate(ns[:12] if tier == "quick" else ns[:40]):
@@ -146,6 +157,9 @@ def run(c):
     if d == "coverage":
         from ..core_runs import run_coverage
         return run_coverage(c)
+    if d == "seq":
+        from ..core_runs import run_seq
+        return run_seq(c)
     if d == "permute":
         x = np.array(c["x"], dtype=float)
         leaves = explore(lambda t: tuple(float(v) for v in utils.permute(x, t)))
@@ -300,6 +314,9 @@ def oracle(c, o):
     if d == "coverage":
         from ..core_runs import oracle_coverage
         return oracle_coverage(c, o)
+    if d == "seq":
+        from ..core_runs import oracle_seq
+        return oracle_seq(c, o)
     if d == "rs_structure":
         want = {"two_sample": [["shuffle", 7]] * 2, "one_sample": [["randint", 0, 2, 3]] * 2, "permute": [["random", 4]],
                 "pwg": [["random", 2], ["random", 3]]}
@@ -432,7 +449,7 @@ def to_coq(c, o):
 
 def extra_terms(c, o):
     d = c["d"]; out = []
-    if d in ("seed_kinds", "coverage"):
+    if d in ("seed_kinds", "coverage", "seq"):
         return out
     if d == "permute":
         x = [Fraction(v) for v in c["x"]]
@@ -456,7 +473,7 @@ def extra_terms(c, o):
 
 
 def nontrivial(c, o):
-    return c["d"] in ("rs_structure", "seed_kinds", "coverage") or len(o.get("outcomes", [])) > 1
+    return c["d"] in ("rs_structure", "seed_kinds", "coverage", "seq") or len(o.get("outcomes", [])) > 1
 
 
 def key(c):
